@@ -5,6 +5,6 @@ package pool
 // No-op twins of the verification hooks (see verif_c20.go, build tag "verif").
 // With the tag off the pool behaves exactly as before.
 
-func getHook(b []byte) []byte { return b }
+func getHookBuf(size int) ([]byte, bool) { return nil, false }
 
 func releaseHook(b []byte) bool { return false }
